@@ -442,7 +442,11 @@ func (fc *FnCtx) applyContract(c *Contract, cname string, names []string, typs [
 			}
 			continue
 		}
-		o := fc.oblige("pre", cname+": "+r.Text, pos, t)
+		preKind := "pre"
+		if r.Strict {
+			preKind = "pre-strict"
+		}
+		o := fc.oblige(preKind, cname+": "+r.Text, pos, t)
 		if len(sks) > 0 {
 			// goal-side quantifiers were skolemised: instantiate the hypotheses at the skolem
 			// constants, and keep the quantified form (not the skolemised one) as the fact
